@@ -723,6 +723,10 @@ func checkMain(args []string) {
 	os.WriteFile(filepath.Join(verifRoot, "evidence", id+".json"), append(b, '\n'), 0o644)
 	fmt.Printf("%s %s: units=%d evaluations=%d nontrivial=%d outcomes=%d levels=%v exhaustive=%v violations=%d known=%d wall=%.1fs\n",
 		id, tier, total.Units, total.Evals, total.Nontrivial, len(total.Outcomes), completed, exhaustive, nviol, len(knownIDs), time.Since(t0).Seconds())
+	if n := total.Counters["ORACLE-DISAGREEMENT"]; n > 0 {
+		fmt.Printf("ORACLE-DISAGREEMENT: the reference model and an independent arbiter disagree on %d cases (see coverage.notes); the reference model must be corrected before this check can be trusted\n", n)
+		os.Exit(2)
+	}
 	if nviol > 0 {
 		os.Exit(1)
 	}
